@@ -22,7 +22,15 @@ class Abort(BaseException):  # like KeyboardInterrupt: not an Exception subclass
 
 
 def mksys(variant, V, R, phases, bpc=None):
-    """variant A: battery B is the only source; variant B: two sources, the battery is the second one."""
+    """variant A: battery B is the only source; variant B: two sources, the battery is the second one; variant C: a 1.82 W load directly on the battery."""
+    if variant == "C":
+        s = System("t", Source("B", vo=V, rs=R))
+        s.add_comp("B", comp=PLoad("L", pwr=1.82, pwrs=0.5))
+        if phases:
+            names = list(phases)
+            s.set_sys_phases(dict(phases))
+            s.set_comp_phases("L", {names[0]: 1.82, names[-1]: 1.0})
+        return s
     if variant == "A":
         s = System("t", Source("B", vo=V, rs=R))
     else:
@@ -50,7 +58,7 @@ def ibatt(variant, V, R, phases, ph, bpc=None):
     return float(df[df.Component == "B"]["Iout (A)"].iloc[0])
 
 
-def run_seq(variant, phname, seq, cutoff=3.0, cap0=0.01, V0=3.7, R0=0.1, fault=None, bpc=None):
+def run_seq(variant, phname, seq, cutoff=3.0, cap0=0.01, V0=3.7, R0=0.1, fault=None, bpc=None, alias=False):
     phases = PHASES[phname]
     s = mksys(variant, 5.0, 0.3, phases, bpc)
     calls = []
@@ -62,7 +70,7 @@ def run_seq(variant, phname, seq, cutoff=3.0, cap0=0.01, V0=3.7, R0=0.1, fault=N
         npf[0] += 1
         if fault == "pfunc":
             raise Boom()
-        return tuple(st)
+        return st if alias else tuple(st)   # alias: the model hands out its own mutable state object every time
 
     def df(t, i):
         calls.append((t, float(i), st[1], st[2]))
@@ -86,7 +94,7 @@ def run_seq(variant, phname, seq, cutoff=3.0, cap0=0.01, V0=3.7, R0=0.1, fault=N
             st[0] -= dc * cap0
             st[1] += dv
             st[2] = 0.0 if dr == "zero" else st[2] + dr   # "z": the model reports an impedance of exactly 0
-        return tuple(st)
+        return st if alias else tuple(st)
 
     exc = log = None
     with contextlib.redirect_stderr(io.StringIO()), contextlib.redirect_stdout(io.StringIO()):
@@ -129,7 +137,12 @@ def check_case(case):
         res.nontrivial = 1
         return res
     bpc = case.get("bpc")
-    s, calls, log, exc, npf = run_seq(variant, phname, seq, bpc=bpc)
+    kw = {}
+    if case.get("slow"):  # a battery close to the voltage-collapse point: the solver needs many sweeps; the current must still be the converged one
+        kw = dict(V0=3.6, R0=1.78, cutoff=1.0)
+    s, calls, log, exc, npf = run_seq(variant, phname, seq, bpc=bpc, alias=case.get("alias", False), **kw)
+    if case.get("slow"):
+        cutoff = 1.0
     res.stats["evaluations"] += 1
     res.stats["transitions"] += len(calls) + 1
     if exc is not None:
@@ -148,7 +161,7 @@ def check_case(case):
     if npf != 1:
         res.v(("C18.probe-count",), "pfunc called %d times" % npf)
     T, Cc, Vv, Rr = (log[c].tolist() for c in ("Time (s)", "Capacity (Ah)", "Voltage (V)", "Resistance (Ohm)"))
-    if (T[0], Cc[0], Vv[0], Rr[0]) != (0.0, cap0, 3.7, 0.1):
+    if (T[0], Cc[0], Vv[0], Rr[0]) != ((0.0, cap0, 3.7, 0.1) if not case.get("slow") else (0.0, cap0, 3.6, 1.78)):
         res.v(("C18.initial-row",), "%r" % ((T[0], Cc[0], Vv[0], Rr[0]),))
     if not all(b > a for a, b in zip(T, T[1:])):
         res.v(("C18.time-not-increasing",), "%r" % T)
@@ -192,8 +205,17 @@ def gen_cases(tier):
                     for k in range(0, min(K, 4) + 1):
                         for body in itertools.product("cvr", repeat=k):
                             yield dict(variant=variant, phases=phname, seq="".join(body) + "Z", bpc=bpc)
+            for k in range(0, 3):   # the model returns the SAME mutable object on every call; the log must hold the values of each step
+                for body in itertools.product("cvr", repeat=k):
+                    yield dict(variant=variant, phases=phname, seq="".join(body) + "Z", alias=True)
             for bad in ("C", "L", "nope", "R"):
                 yield dict(variant=variant, phases=phname, seq="", bad_name=bad)
+
+
+def gen_slow():
+    for phname in ("none", "two"):
+        for seq in ("Z", "cZ", "ccZ", "cccZ"):
+            yield dict(variant="C", phases=phname, seq=seq, slow=True)
 
 
 def replay(doc):
@@ -205,7 +227,7 @@ def replay(doc):
 
 def main(tier):
     run = Run(PROP, tier, replay)
-    run.map(check_case, gen_cases(tier), chunk=8, family="answers")
+    run.map(check_case, itertools.chain(gen_cases(tier), gen_slow()), chunk=8, family="answers")
     for c in ("end:Z", "end:K", "end:U", "cycled:two", "cycled:three"):
         run.require(c in run.classes, "class %s never observed" % c)
     return run.finish(
